@@ -81,6 +81,8 @@ pub struct ScalarCfg {
     /// types: the configuration takes precedence (schema_type_printer/context.rs: "If scalarType is
     /// provided, it takes precedence"), so the directive's types must not show anywhere
     pub decoy_directive: BTreeMap<String, ScalarTs>,
+    /// which of the 24 orders the four (named) arguments of a @nitrogql_ts_type application are written in
+    pub directive_arg_order: usize,
 }
 
 pub const TS_POOL: &[&str] = &[
@@ -96,7 +98,7 @@ impl ScalarCfg {
         map.insert("Int".to_string(), ScalarTs::Single("number".into()));
         map.insert("Float".to_string(), ScalarTs::Single("number".into()));
         map.insert("Boolean".to_string(), ScalarTs::Single("boolean".into()));
-        ScalarCfg { map, via_directive: BTreeSet::new(), decoy_directive: BTreeMap::new() }
+        ScalarCfg { map, via_directive: BTreeSet::new(), decoy_directive: BTreeMap::new(), directive_arg_order: 0 }
     }
     /// random configuration for the custom scalars of `s`
     pub fn generate(ch: &mut Choices, s: &Schema, allow_directive: bool) -> ScalarCfg {
@@ -150,6 +152,9 @@ impl ScalarCfg {
                 cfg.map.insert(t.name.clone(), c);
             }
         }
+        if !cfg.via_directive.is_empty() || !cfg.decoy_directive.is_empty() {
+            cfg.directive_arg_order = ch.below(24);
+        }
         cfg
     }
     pub fn ts(&self, scalar: &str, t: Target) -> &str {
@@ -173,15 +178,20 @@ impl ScalarCfg {
                 &self.map[scalar]
             }
         };
-        Some(MDirective {
-            name: "nitrogql_ts_type".into(),
-            args: vec![
-                ("resolverInput".into(), MValue::Str(c.get(Target::ResolverInput).into())),
-                ("resolverOutput".into(), MValue::Str(c.get(Target::ResolverOutput).into())),
-                ("operationInput".into(), MValue::Str(c.get(Target::OperationInput).into())),
-                ("operationOutput".into(), MValue::Str(c.get(Target::OperationOutput).into())),
-            ],
-        })
+        let mut args: Vec<(String, MValue)> = vec![
+            ("resolverInput".into(), MValue::Str(c.get(Target::ResolverInput).into())),
+            ("resolverOutput".into(), MValue::Str(c.get(Target::ResolverOutput).into())),
+            ("operationInput".into(), MValue::Str(c.get(Target::OperationInput).into())),
+            ("operationOutput".into(), MValue::Str(c.get(Target::OperationOutput).into())),
+        ];
+        // arguments are named: any order is the same application
+        let mut k = self.directive_arg_order;
+        let mut ordered = vec![];
+        for n in (1..=4).rev() {
+            ordered.push(args.remove(k % n));
+            k /= n;
+        }
+        Some(MDirective { name: "nitrogql_ts_type".into(), args: ordered })
     }
 }
 
